@@ -225,6 +225,7 @@ func registerStubs(p *Program) {
 
 	registerSyncStubs(p)
 	registerTimeStubs(p)
+	registerNetStubs(p)
 }
 
 func registerSyncStubs(p *Program) {
@@ -362,5 +363,112 @@ func registerTimeStubs(p *Program) {
 	p.stub("(time.Time).Compare", func(ex *Exec, a []Value) Value {
 		x, y := ns(a[0]), ns(a[1])
 		return Ite(Cmp(OSLt, x, y), BV(^uint64(0), 64), Ite(Eq(x, y), BV(0, 64), BV(1, 64)))
+	})
+}
+
+func structFieldIndex(t types.Type, name string) int {
+	st := t.Underlying().(*types.Struct)
+	for i := 0; i < st.NumFields(); i++ {
+		if st.Field(i).Name() == name {
+			return i
+		}
+	}
+	return -1
+}
+
+// ErrorsAs implements errors.As on executor values.
+func (ex *Exec) ErrorsAs(err IfaceVal, target IfaceVal) bool {
+	if target.T == nil {
+		ex.goPanicf("errors: target cannot be nil")
+	}
+	tt := deref(target.T)
+	dst := target.V.(Ptr)
+	for depth := 0; depth < 32; depth++ {
+		if err.T == nil {
+			return false
+		}
+		if it, ok := tt.Underlying().(*types.Interface); ok {
+			if types.Implements(err.T, it) {
+				ex.store(dst, err)
+				return true
+			}
+		} else if types.Identical(err.T, tt) {
+			ex.store(dst, err.V)
+			return true
+		}
+		ms := ex.P.Prog.MethodSets.MethodSet(err.T)
+		sel := ms.Lookup(nil, "Unwrap")
+		if sel == nil {
+			return false
+		}
+		sig := sel.Type().(*types.Signature)
+		if sig.Params().Len() != 0 || sig.Results().Len() != 1 {
+			return false
+		}
+		r := ex.callFunction(ex.curFrame, ex.P.Prog.MethodValue(sel), []Value{err.V}, nil, nil)
+		next, ok := r.(IfaceVal)
+		if !ok {
+			return false
+		}
+		err = next
+	}
+	return false
+}
+
+func registerNetStubs(p *Program) {
+	p.stub("errors.As", func(ex *Exec, a []Value) Value {
+		return Bool(ex.ErrorsAs(a[0].(IfaceVal), a[1].(IfaceVal)))
+	})
+	clientT := p.findType("net/http", "Client")
+	urlErrT := p.findType("net/url", "Error")
+	p.stub("(*net/http.Client).Do", func(ex *Exec, a []Value) Value {
+		cv := ex.load(a[0].(Ptr)).(*StructVal)
+		tr := cv.F[structFieldIndex(clientT, "Transport")].(IfaceVal)
+		if tr.T == nil {
+			ex.internal("http.Client.Do with the default transport is outside the model")
+		}
+		res := ex.InvokeMethod(tr, "RoundTrip", a[1]).(Tuple)
+		if e := res[1].(IfaceVal); e.T != nil {
+			obj := ex.newObject(urlErrT, &StructVal{F: []Value{MkStr("Get"), MkStr(""), e}})
+			return Tuple{Ptr{}, IfaceVal{T: types.NewPointer(urlErrT), V: Ptr{Obj: obj}}}
+		}
+		return Tuple{res[0], IfaceVal{}}
+	})
+	// timers fire as soon as they are armed; the durations they are reset to are recorded
+	timerT := p.findType("time", "Timer")
+	timeT := p.findType("time", "Time")
+	fill := func(ex *Exec, ch *ChanVal) {
+		if len(ch.Buf) == 0 {
+			ch.Buf = append(ch.Buf, Zero(timeT))
+		}
+	}
+	p.stub("time.NewTimer", func(ex *Exec, a []Value) Value {
+		ex.nobj++
+		ch := &ChanVal{ID: ex.nobj, Cap: 1, Elem: timeT}
+		fill(ex, ch)
+		sv := Zero(timerT).(*StructVal)
+		f := append([]Value{}, sv.F...)
+		f[structFieldIndex(timerT, "C")] = ch
+		return Ptr{Obj: ex.newObject(timerT, &StructVal{F: f})}
+	})
+	p.stub("(*time.Timer).Reset", func(ex *Exec, a []Value) Value {
+		tv := ex.load(a[0].(Ptr)).(*StructVal)
+		fill(ex, tv.F[structFieldIndex(timerT, "C")].(*ChanVal))
+		resets, _ := ex.natState["timer.resets"].([]*Term)
+		ex.natState["timer.resets"] = append(resets, a[1].(*Term))
+		return True
+	})
+	p.stub("(*time.Timer).Stop", func(ex *Exec, a []Value) Value { return True })
+	// math/rand: an arbitrary float in [0,1)
+	randT := p.findType("math/rand", "Rand")
+	p.stub("math/rand.NewSource", func(ex *Exec, a []Value) Value { return IfaceVal{} })
+	p.stub("math/rand.New", func(ex *Exec, a []Value) Value {
+		return Ptr{Obj: ex.newObject(randT, Zero(randT))}
+	})
+	p.stub("(*math/rand.Rand).Float64", func(ex *Exec, a []Value) Value {
+		v := ex.freshFloat("rand.Float64")
+		ex.recNondet("rand.Float64", "float", 64, v)
+		ex.Assume(And(FBin(OFLe, F64(0), v), FBin(OFLt, v, F64(1))))
+		return v
 	})
 }
